@@ -25,6 +25,9 @@ pub enum V {
     Str(String),
     /// `serializer.collect_str(&s)`
     CollectStr(String),
+    /// `serializer.collect_str(&d)` where `d`'s `Display` writes the pieces one by one and carries on after a
+    /// piece failed (a "best effort" Display: wrappers that fall back to a placeholder do this)
+    CollectStrLossy(Vec<String>),
     Bytes(Vec<u8>),
     None,
     Some(Box<V>),
@@ -91,6 +94,19 @@ impl Serialize for V {
             V::Char(v) => s.serialize_char(*v),
             V::Str(v) => s.serialize_str(v),
             V::CollectStr(v) => s.collect_str(v),
+            V::CollectStrLossy(parts) => {
+                struct Lossy<'a>(&'a [String]);
+                impl std::fmt::Display for Lossy<'_> {
+                    fn fmt(&self, f: &mut std::fmt::Formatter<'_>) -> std::fmt::Result {
+                        for p in self.0 {
+                            // whatever happened to this piece, try the next one
+                            let _ = f.write_str(p);
+                        }
+                        Ok(())
+                    }
+                }
+                s.collect_str(&Lossy(parts))
+            }
             V::Bytes(v) => s.serialize_bytes(v),
             V::None => s.serialize_none(),
             V::Some(v) => s.serialize_some(&**v),
@@ -182,7 +198,7 @@ pub const NAMES: [&str; 16] = [
 /// variant, or a newtype struct around those)?
 pub fn key_must_be_accepted(k: &V) -> bool {
     match k {
-        V::Str(_) | V::CollectStr(_) | V::Char(_) | V::UnitVariant(..) => true,
+        V::Str(_) | V::CollectStr(_) | V::CollectStrLossy(_) | V::Char(_) | V::UnitVariant(..) => true,
         V::I8(_) | V::I16(_) | V::I32(_) | V::I64(_) | V::I128(_) => true,
         V::U8(_) | V::U16(_) | V::U32(_) | V::U64(_) | V::U128(_) => true,
         V::NewtypeStruct(_, inner) => key_must_be_accepted(inner),
@@ -301,7 +317,7 @@ pub fn rand_scalar(rng: &mut Rng) -> V {
             }
         }),
         14 | 15 => V::Str(rand_string(rng, 12)),
-        16 => V::CollectStr(rand_string(rng, 8)),
+        16 => if rng.chance(1, 2) { V::CollectStr(rand_string(rng, 8)) } else { V::CollectStrLossy((0..rng.range(1, 4)).map(|_| rand_string(rng, 6)).collect()) },
         17 => V::Bytes((0..rng.below(6)).map(|_| rng.next_u64() as u8).collect()),
         18 => V::None,
         19 => V::Unit,
